@@ -16,6 +16,7 @@
 #include <string>
 #include <string_view>
 #include <vector>
+#include <sys/mman.h>
 #include <cstring>
 #include <frg/string.hpp>
 #include "../engine/verif.hpp"
@@ -331,6 +332,44 @@ void wide_battery(Ctx &c, const std::string &A8, const std::string &B8, const ch
 	c.destroy(sb); c.destroy(sa);
 }
 
+// ---- views longer than 2^31 and 2^32 characters -------------------------------------------------
+// Address space is reserved without backing (PROT_NONE, MAP_NORESERVE); only the first and the last page of the view are
+// readable. Every check below needs only those pages when positions are computed in size_t; an index that is squeezed
+// through int or unsigned lands in the inaccessible middle or gives a wrong position.
+void huge_views(Ctx &c) {
+	auto &t = c.t;
+	static const size_t sizes[] = {(size_t(1) << 31) + 1, (size_t(1) << 31) - 1, (size_t(1) << 32) + 5, (size_t(1) << 32) - 1, (size_t(3) << 31) + 7, (size_t(1) << 33) + 1};
+	size_t size = sizes[t.pick(6)] + (t.flip() ? 0 : t.pick(4096));
+	size_t page = 4096, map_len = (size + 2 * page - 1) / page * page + page;
+	char *base = (char *)mmap(nullptr, map_len, PROT_NONE, MAP_PRIVATE | MAP_ANONYMOUS | MAP_NORESERVE, -1, 0);
+	if(base == MAP_FAILED) { c.discard("address space for a huge view is not available"); return; }
+	char *end = base + map_len - page;                 // the view ends where the last readable page ends; the page behind it stays inaccessible
+	char *start = end - size;
+	char *first_page = (char *)((uintptr_t)start & ~(page - 1));
+	mprotect(first_page, 2 * page, PROT_READ | PROT_WRITE);
+	mprotect(end - 2 * page, 2 * page, PROT_READ | PROT_WRITE);
+	memset(start, 'm', (size_t)(first_page + 2 * page - start));
+	memset(end - page, 'm', page);
+	c.op("view of %zu characters (first and last page readable)", size);
+	c.tag("huge-view");
+	end[-1] = 'x'; end[-2] = 'y'; end[-3] = 'x'; start[0] = 'f'; start[1] = 'g'; start[2] = 'f';
+	frg::string_view v(start, size);
+	VCHECK(c, "C15", v.size() == size, "size() is %zu", v.size());
+	VCHECK(c, "C15", v[size - 1] == 'x' && v[size - 2] == 'y' && v[0] == 'f', "operator[] at the ends");
+	VCHECK(c, "C15", v.find_last('x') == size - 1, "find_last('x') is %zu, the last character (position %zu) is 'x'", v.find_last('x'), size - 1);
+	VCHECK(c, "C15", v.find_last('y') == size - 2, "find_last('y') is %zu, expected %zu", v.find_last('y'), size - 2);
+	VCHECK(c, "C15", v.find_first('f') == 0 && v.find_first('g') == 1 && v.find_first('f', 1) == 2, "find_first at the start of a huge view");
+	VCHECK(c, "C15", v.find_first('x', size - 4) == size - 3 && v.find_first('y', size - 4) == size - 2 && v.find_first('x', size - 2) == size - 1, "find_first with a start position near the end of a huge view: %zu / %zu", v.find_first('x', size - 4), v.find_first('y', size - 4));
+	VCHECK(c, "C15", v.find_first_of(frg::string_view("g"), 0) == 1 && v.find_first_of(frg::string_view("yx"), size - 4) == size - 3, "find_first_of near the ends of a huge view");
+	frg::string_view tail = v.sub_string(size - 3, 3), head = v.sub_string(0, 3);
+	VCHECK(c, "C15", tail.data() == end - 3 && tail.size() == 3 && tail == frg::string_view("xyx") && head == frg::string_view("fgf"), "sub_string at the ends of a huge view");
+	VCHECK(c, "C15", v.ends_with(frg::string_view("xyx")) && v.starts_with(frg::string_view("fgf")) && !v.ends_with(frg::string_view("xyy")), "starts_with/ends_with on a huge view");
+	frg::string_view shorter = v.sub_string(0, size - 1);
+	VCHECK(c, "C15", !(v == shorter) && !(shorter == v) && (v != shorter), "a huge view compares equal to its own prefix of %zu characters", size - 1);
+	munmap(base, map_len);
+	c.nontrivial = true;
+}
+
 void battery(Ctx &c, const std::string &A, const std::string &B) {
 	c.op("battery A=%s B=%s", show(A).c_str(), show(B).c_str());
 	view_battery(c, A, B);
@@ -353,7 +392,8 @@ void battery(Ctx &c, const std::string &A, const std::string &B) {
 } // namespace
 
 void verif_case(Ctx &c) {
-	unsigned mode = c.t.pick(3);
+	unsigned mode = c.t.pick(4);
+	if(mode == 3) { if(c.t.pick(8) == 0 && c.focus() != "C16") { huge_views(c); return; } mode = 0; }
 	if(mode == 0) { std::string A = gen_bytes(c), B = gen_bytes(c); battery(c, A, B); }
 	else if(mode == 1) { std::string A = gen_bytes(c); std::string B = A; // related operand: mutate A
 		unsigned how = c.t.pick(5);
